@@ -12,11 +12,13 @@ class Defs:
             blk = self.g.blocks[bb]
             for i, s in enumerate(blk['stmts']):
                 if s['s'] == 'assign':
+                    if any(e['p'] == 'deref' for e in s['lhs']['proj']):
+                        continue      # a store through a reference defines the pointee, not the local
                     self.defs[s['lhs']['l']].append(('assign', bb, i, s))
                 elif s['s'] == 'setdiscr':
                     self.defs[s['p']['l']].append(('setdiscr', bb, i, s))
             t = blk['term']
-            if t['t'] == 'call':
+            if t['t'] == 'call' and not any(e['p'] == 'deref' for e in t['dest']['proj']):
                 self.defs[t['dest']['l']].append(('call', bb, None, t))
 
     def whole_defs(self, l):
@@ -111,3 +113,45 @@ def defs_of(body):
     if d is None or d.body is not body:
         d = Defs(body); _defs_cache[k] = d
     return d
+
+
+def const_item_of(facts, body, operand, depth=0):
+    """Name of the `const` item an operand (a reference / slice of it) ultimately refers to, or None.
+    Follows copies, `&`/deref, `Index::index(.., RangeFull)`, unsizing casts and promoted constants."""
+    D = defs_of(body)
+    if depth > 20:
+        return None
+    if operand['o'] == 'const':
+        if 'uneval' in operand:
+            if 'promoted' in operand:
+                pn = '%s::%s::promoted[%d]' % (body['crate'], operand['uneval'], operand['promoted'])
+                pb = facts.bodies.get(pn)
+                if pb is None:
+                    return None
+                # promoted body: _1 = const ITEM; _0 = &_1   (possibly with an index / cast)
+                for d in defs_of(pb).defs.get(0, []):
+                    if d[0] == 'assign':
+                        rv = d[3]['rv']
+                        if rv['r'] == 'ref':
+                            return const_item_of(facts, pb, {'o': 'copy', 'p': rv['p']}, depth + 1)
+                        if rv['r'] in ('use', 'cast'):
+                            return const_item_of(facts, pb, rv['a'], depth + 1)
+                return None
+            return operand['uneval']
+        return None
+    o = D.origin(operand)
+    o = strip_ref(o)
+    if o[0] == 'const':
+        return const_item_of(facts, body, o[2], depth + 1) if o[2].get('uneval') else None
+    if o[0] == 'call':
+        t = o[2]
+        if callee_is(facts, t, '>::index', '::index', 'as_ref', 'as_slice', '::deref') and t['args']:
+            return const_item_of(facts, body, t['args'][0], depth + 1)
+        return None
+    if o[0] == 'rv':
+        rv = o[2]['rv']
+        if rv['r'] in ('cast', 'use'):
+            return const_item_of(facts, body, rv['a'], depth + 1)
+        if rv['r'] == 'ref':
+            return const_item_of(facts, body, {'o': 'copy', 'p': rv['p']}, depth + 1)
+    return None
